@@ -354,7 +354,7 @@ Proof.
   apply andb_prop in H. destruct H as [Hc Hwfb]. apply Z.leb_le in Hbud.
   pose proof (swfb_ok xs Hwfb) as Hwf.
   pose proof (toks_render3 xs Hwf) as Htok.
-  destruct (parse_gflat false _ _ (lay_stmt_gflat xs Hwf 0)) as [Hp Hm].
+  destruct (parse_gflat (mc_jsx (xc_m x)) _ _ (lay_stmt_gflat (mc_jsx (xc_m x)) xs Hwf 0)) as [Hp Hm].
   set (root := closed (grun (fst (lay_stmt 0 xs)) root0)) in *.
   destruct (stmt_marks (name_fine x) xs (proj2 (Forall_forall _ _) (fun u _ => unit_marks_all (name_fine x) (fst u))) 0 0 0)
     as [Hall Hsm].
